@@ -6,7 +6,7 @@ Import ListNotations.
 Open Scope Z_scope.
 
 Inductive case :=
-| FlightCase (dcid scid ipn : Z) (lens : list Z) (single : Z)
+| FlightCase (dcid scid ipn firstPN : Z) (lens : list Z) (single : Z)
              (expl : option (option string)) (ctl : Z) (prefix tail : string) (conftok : option string)
              (bk : bkind) (plans : list (Z * Z)) (udpMin maxSize helloLen : Z) (plens : list Z)
              (* observed *)
@@ -18,6 +18,10 @@ Inductive case :=
 | ValidateCase (specDcid specScid ipn : Z) (lens : list Z) (single udpMin : Z) (plans : list (Z * Z)) (maxPacket : Z)
                (* observed: the whole dial failed with "invalid QUICSpec" before sending anything *)
                (obsRejected : bool)
+| VNCase (ipn : Z) (lens : list Z) (single : Z)
+         (* observed: (packet number, encoding length) of every client Initial of ONE Dial that was
+            re-created after a Version Negotiation packet, both connections, in sending order *)
+         (obsPackets : list (Z * Z))
 | HeaderCase (ver : Z) (dcid scid token : string) (lf pn pnLen : Z)
              (* observed: the packet's header bytes after the independent observer removed header protection *)
              (obsHeader : string).
@@ -58,11 +62,11 @@ Definition tokLenOf (t : option (list Z)) : Z :=
 (** what the model predicts for a flight case *)
 Record fobs := { fo_initialPN : Z; fo_token : option (list Z); fo_budgets : list Z; fo_dgs : list dgres }.
 
-Definition flight_obs (dcid scid ipn : Z) (lens : list Z) (single : Z)
+Definition flight_obs (dcid scid ipn firstPN : Z) (lens : list Z) (single : Z)
            (expl : option (option string)) (ctl : Z) (prefix tail : string) (conftok : option string)
            (bk : bkind) (plans : list (Z * Z)) (udpMin maxSize helloLen : Z) (plens : list Z) : fobs :=
   let tok := resolveToken (oohx expl) ctl (hx prefix) (hx tail) (ohx conftok) in
-  let c := {| c_dcid := dcid; c_scid := scid; c_ipn := ipn; c_lens := lens; c_single := single;
+  let c := {| c_dcid := dcid; c_scid := scid; c_ipn := ipn; c_first := firstPN; c_lens := lens; c_single := single;
               c_tokLen := tokLenOf tok; c_bk := bk; c_plans := plans; c_udpMin := udpMin; c_maxSize := maxSize |} in
   {| fo_initialPN := initialPN ipn; fo_token := tok;
      fo_budgets := match bk with BFlight => if helloLen >? 0 then flightBudgets c helloLen else [] | _ => [] end;
@@ -80,16 +84,21 @@ Definition dial_obs (specDcid specScid ipn : Z) (lens : list Z) (single : Z)
   {| do_dcid := d; do_scid := s; do_pn := pn; do_pnLen := pl; do_token := tok;
      do_hdr := hdrLen d s (tokLenOf tok) pl |}.
 
-Inductive obs := FObs (o : fobs) | DObs (o : dobs) | VObs (rejected : bool) | HObs (cls : Z) (bytes : list Z).
+Inductive obs := FObs (o : fobs) | DObs (o : dobs) | VObs (rejected : bool) | HObs (cls : Z) (bytes : list Z) | NObs (pkts : list (Z * Z)).
 
 Definition model_obs (c : case) : obs :=
   match c with
-  | FlightCase dcid scid ipn lens single expl ctl prefix tail conftok bk plans udpMin maxSize helloLen plens _ _ _ _ =>
-    FObs (flight_obs dcid scid ipn lens single expl ctl prefix tail conftok bk plans udpMin maxSize helloLen plens)
+  | FlightCase dcid scid ipn firstPN lens single expl ctl prefix tail conftok bk plans udpMin maxSize helloLen plens _ _ _ _ =>
+    FObs (flight_obs dcid scid ipn firstPN lens single expl ctl prefix tail conftok bk plans udpMin maxSize helloLen plens)
   | DialCase specDcid specScid ipn lens single expl ctl prefix tail conftok obsDcid _ _ _ _ _ =>
     DObs (dial_obs specDcid specScid ipn lens single expl ctl prefix tail conftok obsDcid)
   | ValidateCase specDcid specScid ipn lens single udpMin plans maxPacket _ =>
     VObs (negb (validateSpec specScid specDcid ipn lens single udpMin plans maxPacket))
+  | VNCase ipn lens single ops =>
+    (* the packet number space continues across the re-creation; the length list stays indexed
+       from the spec's InitPacketNumber *)
+    NObs (map (fun i => let pn := initialPN ipn + i in (pn, peekPnLen lens single (pnBase ipn) pn))
+              (zseq (List.length ops) 0))
   | HeaderCase ver dcid scid token lf pn pnLen _ =>
     let '(c, b) := initialHeaderBytes ver (hx dcid) (hx scid) (hx token) lf pn pnLen in HObs c b
   end.
@@ -98,7 +107,7 @@ Definition model_obs (c : case) : obs :=
     SetToken received (None: not called) *)
 Definition check_case (c : case) : bool :=
   match c, model_obs c with
-  | FlightCase _ _ _ _ _ _ _ _ _ _ bk _ _ _ _ _ oipn otok obud odgs, FObs o =>
+  | FlightCase _ _ _ _ _ _ _ _ _ _ _ bk _ _ _ _ _ oipn otok obud odgs, FObs o =>
     (fo_initialPN o =? oipn) && obytes_eqb (fo_token o) (ohx otok)
     && list_eqb Z.eqb (fo_budgets o) obud && list_eqb dgres_eqb (fo_dgs o) odgs
   | DialCase specDcid _ _ _ _ _ _ _ _ _ od os opn opl otok oh, DObs o =>
@@ -107,6 +116,7 @@ Definition check_case (c : case) : bool :=
     && (do_hdr o =? oh)
     && ((specDcid >? 0) || ((upMinConnectionIDLenInitial <=? od) && (od <=? upMaxConnIDLen)))
   | ValidateCase _ _ _ _ _ _ _ _ orej, VObs r => Bool.eqb r orej
+  | VNCase _ _ _ ops, NObs m => list_eqb pair_eqb m ops
   | HeaderCase _ _ _ _ _ _ _ oh, HObs c b => (c =? 0) && zeqb_list b (hx oh)
   | _, _ => false
   end.
